@@ -358,16 +358,10 @@ func runC06(c *fw.Ctx) {
 			return
 		}
 		bound := 2
-		if c.Thorough() {
+		if len(p.Threads) == 2 && len(p.Threads[0]) == 1 {
+			bound = -1 // two single-request clients: every interleaving, in both tiers
+		} else if c.Thorough() {
 			bound = 3
-			if len(p.Threads) == 2 && len(p.Threads[0]) == 1 {
-				bound = -1
-			}
-		} else if len(p.Threads) == 3 {
-			bound = 1
-			if p.Engine == "btree" {
-				bound = 2
-			}
 		}
 		n := exploreScenario(c, "C06", sc, bound, 0)
 		c.Note("execs:"+sc.Name, n)
@@ -407,7 +401,7 @@ func runC06(c *fw.Ctx) {
 	for _, eng := range seqEngines {
 		for _, prior := range priors {
 			for li, l := range lists {
-				if eng == "mem" && !c.Thorough() && li%5 != 0 {
+				if eng == "mem" && !c.Thorough() && li%2 != 0 {
 					continue
 				}
 				item++
